@@ -4,6 +4,8 @@
 // (C13_CASE_DEADLINE_S, default 8 s for seq / 20 s for pf; 3 s once three children have hung): a hung child is diagnosed on
 // stderr (HANGDIAG lines), killed and reported as "HANG after_result=<0|1> partial=...".
 //   harness seq   : stdin lines "n1 n2 ..."                 -> "r0 r1 r2 ..." (numTaskingThreads before / after each init)
+//   harness seq   : tokens may also be u (a parallel_for) / s (a schedule()d closure): uses before / between inits
+//   harness cre   : stdin lines "n m ms"  -> one thread loops parallel_for while this thread alternates init(n)/init(m)
 //   harness pf    : stdin lines "nfirst n size dur"         -> "report=R count=C max_inside=M ids=I"
 //                   (nfirst != 0: an earlier initTaskingSystem(nfirst); dur: 0 | 50 | -1 (uneven) | -2 (NESTED:
 //                   each of the size outer bodies runs parallel_for(8) with 200 us bodies; count = inner bodies))
@@ -26,6 +28,7 @@
 #include <unistd.h>
 
 #include "rkcommon/tasking/parallel_for.h"
+#include "rkcommon/tasking/schedule.h"
 #include "rkcommon/tasking/tasking_system_init.h"
 
 using namespace rkcommon::tasking;
@@ -38,14 +41,66 @@ static void spin_us(int us)
   while (clk::now() < end) {}
 }
 
+// ops: integers = initTaskingSystem(n); USE_PF = a parallel_for(16) (uses the tasking system, may start it lazily);
+// USE_SCHED = a schedule()d closure, waited for.  After every op numTaskingThreads() is reported.
+static const int USE_PF = 1000001, USE_SCHED = 1000002;
 static std::string child_seq(const std::vector<int> &ns)
 {
   std::ostringstream o;
   o << numTaskingThreads();
   for (int n : ns) {
-    initTaskingSystem(n);
+    if (n == USE_PF) {
+      std::atomic<int> c{0};
+      parallel_for(16, [&](int) { c++; });
+      if (c.load() != 16) o << " BADLOOP";
+    } else if (n == USE_SCHED) {
+      std::atomic<int> *c = new std::atomic<int>(0);
+      schedule([c]() { (*c)++; });
+      std::atomic<int> pf{0};
+      parallel_for(2, [&](int) { pf++; });      // also lets a 1-thread internal system run the closure
+      auto t0 = clk::now();
+      while (c->load() == 0 && clk::now() - t0 < std::chrono::milliseconds(300)) std::this_thread::yield();
+    } else
+      initTaskingSystem(n);
     o << " " << numTaskingThreads();
   }
+  return o.str();
+}
+
+// concurrent re-initialisation: one thread keeps running parallel_for loops (bodies count how many are inside at once)
+// while this thread alternates initTaskingSystem(n) / initTaskingSystem(m) for ms milliseconds.
+static std::string child_cre(const std::vector<int> &a)
+{
+  if (a.size() != 3) return "bad-case";
+  int n = a[0], m = a[1], ms = a[2];
+  initTaskingSystem(n);
+  std::atomic<int> inside{0}, maxin{0}, stop{0};
+  std::atomic<long> bodies{0}, loops{0};
+  std::thread looper([&]() {
+    while (!stop.load()) {
+      parallel_for(64, [&](int) {
+        int cur = ++inside;
+        int old = maxin.load();
+        while (cur > old && !maxin.compare_exchange_weak(old, cur)) {}
+        spin_us(60);
+        bodies++;
+        --inside;
+      });
+      loops++;
+    }
+  });
+  auto t0 = clk::now();
+  long reinits = 0;
+  while (clk::now() - t0 < std::chrono::milliseconds(ms)) {
+    initTaskingSystem((reinits & 1) ? n : m);
+    reinits++;
+    spin_us(150);
+  }
+  stop = 1;
+  looper.join();
+  std::ostringstream o;
+  o << "n=" << n << " m=" << m << " reinits=" << reinits << " loops=" << loops.load() << " bodies=" << bodies.load() << " max_inside=" << maxin.load()
+    << " report=" << numTaskingThreads();
   return o.str();
 }
 
@@ -130,8 +185,8 @@ int main(int argc, char **argv)
   while (std::getline(std::cin, line)) {
     std::vector<int> v;
     std::istringstream is(line);
-    int x;
-    while (is >> x) v.push_back(x);
+    std::string tok;
+    while (is >> tok) v.push_back(tok == "u" ? USE_PF : tok == "s" ? USE_SCHED : atoi(tok.c_str()));
     int fd[2];
     if (pipe(fd) != 0) return 3;
     fflush(stdout);
@@ -141,7 +196,7 @@ int main(int argc, char **argv)
       bool test_hang_before = !v.empty() && v[0] == 99990, test_hang_after = !v.empty() && v[0] == 99991;
       if (test_hang_before || test_hang_after) v.erase(v.begin());   // self-test of the watchdog only
       if (test_hang_before) pause();
-      std::string r = mode == "seq" ? child_seq(v) : child_pf(v);
+      std::string r = mode == "seq" ? child_seq(v) : mode == "cre" ? child_cre(v) : child_pf(v);
       r += "\n";
       ssize_t w = write(fd[1], r.c_str(), r.size());
       (void)w;
